@@ -157,7 +157,9 @@ def extract_reuse_info(text: str) -> ReuseInfo:
     # License expressions and copyright matches are special cases.
     expressions = set()
     copyright_matches = set()
-    for expression in spdx_tags.pop("spdx_expressions"):
+    # In a fixed order: of two expressions that are equal but for the order of
+    # their operands ('A AND B', 'B AND A'), the set keeps the one added first.
+    for expression in sorted(spdx_tags.pop("spdx_expressions")):
         try:
             parsed = _parse_expression(expression)
         except (ExpressionError, ParseError):
